@@ -1,0 +1,30 @@
+//go:build verif && linux
+
+package conn
+
+import "syscall"
+
+// Listen-time access for the verification harness of property C18 (build tag
+// verif only).  Add-only.
+
+// verifListenHook, if set, runs on every socket the package opens, after the
+// regular control functions and before bind.
+var verifListenHook func(network string, fd uintptr)
+
+func init() {
+	controlFns = append(controlFns, func(network, address string, c syscall.RawConn) error {
+		h := verifListenHook
+		if h == nil {
+			return nil
+		}
+		return c.Control(func(fd uintptr) { h(network, fd) })
+	})
+}
+
+// VerifSetListenHook installs h (nil removes it).  The harness uses it to give
+// the two sockets of one bind different capabilities, for example UDP_GRO
+// switched off on the IPv4 socket only, which is what an Open sees on a host
+// whose address families differ.  Not safe for concurrent Opens.
+func VerifSetListenHook(h func(network string, fd uintptr)) {
+	verifListenHook = h
+}
